@@ -39,6 +39,15 @@ add("C15", "exploration",
     "Generated histories over every mutating operation plus compute_root and flush+drop+reopen of a non-temporary persistent tree; after every step get_empty_leaves_indices() (trait and RLN bytes) must equal the model's ascending list of never-written or removed positions below the mark, per backend.",
     TREE_NOTE, "stateful model-based property testing (flag model)", "DESIGN.md#c15")
 
+add("C19", "exploration",
+    "Every operator x every ordered operand pair of the property's boundary grid is enumerated (quick: 55-value sub-grid; thorough: the full 748-value grid, exhaustive for the grid) on both the Montgomery and the integer evaluator, plus generated boundary-weighted/uniform operands, perturbations, small and negative shift counts; results must equal an independent BigUint transcription of circom's operator semantics and be canonical; panics are violations. Exhaustive on the grid, sampled elsewhere.",
+    "Trusted: circom_ops.rs as a faithful transcription of circom's documented semantics (DESIGN Appendix A); arkworks/ruint conversions.",
+    "exhaustive grid enumeration + property-based differential testing against a reference operator model", "DESIGN.md#c19")
+add("C20", "exploration",
+    "Random well-formed DAGs (1..400 nodes, all supported node kinds, backward references, leading and scattered Input nodes, declared input layouts with gaps, repeated outputs) with boundary-weighted inputs: graph::evaluate and calc_witness on the serialised graph must equal a node-by-node BigUint interpretation; serialize/deserialize must return an equal graph, signal list and input map; named inputs supplied in generated orders.",
+    "Trusted: the C19 operator oracle; the reference interpreter (a 15-line loop).",
+    "grammar-based program generation + differential testing against a reference interpreter + round-trip", "DESIGN.md#c20")
+
 ALL = [f"C{i:02d}" for i in range(1, 21)]
 PENDING_REASON = "check not built yet in this revision of /verif (planned, see DESIGN.md section 2); not claimed until its machinery exists"
 manifest = {
